@@ -553,6 +553,8 @@ func forDotsCase(ctx *core.Ctx, idx int, res *core.Result) {
 		// two loops, the first is deleted: the kept one keeps its own header (pairing is by place, not by count)
 		{"-for ‹1:for› {\n-  gone()\n-}\n for ‹2:for› {\n-  target(«x»)\n+  repl(«x»)\n }", "target(3)"},
 		{" for ‹1:for› {\n   keep()\n }\n-for ‹2:for› {\n-  gone()\n-}\n for ‹3:for› {\n-  target(«x»)\n+  repl(«x»)\n }", "target(4)"},
+		// loop fission: two loops of the '+' side stand for the one loop of the '-' side, each with its own body
+		{"-for ‹1:for› {\n-  target(«x»)\n-  other(«x»)\n-}\n+for ‹1:for› {\n+  target(«x»)\n+}\n+for ‹1:for› {\n+  other(«x»)\n+}", "target(7)\n\tother(7)"},
 		// the loop is the last statement of a block that the pattern writes out, behind an elision (no implied '...' follows)
 		{" if enabled {\n   ‹2:stmts›\n   for ‹1:for› {\n-    target(«x»)\n+    repl(«x»)\n   }\n }", "target(5)"},
 		{" if enabled {\n   ‹2:stmts›\n-  for ‹1:for› {\n-    target(«x»)\n-  }\n+  for ‹1:for› {\n+    repl(«x»)\n+    more()\n+  }\n }", "target(6)"},
